@@ -22,6 +22,10 @@ than one element only where the documentation does not decide (counted as `ambig
 alarm). Rows are read through an independent raw sqlite3 connection on a /dev/shm file database;
 after every case the thread-local session state must be clean and a following session must work
 and see the same rows.
+
+Write flavours: in the single-level dec / cm families (options none / immediate, allowed none / list) every body that
+writes is also run with the row written through obj.flush() right after creation, through Database.insert() and through
+Database.execute(): each of them must belong to the session's transaction like an entity write.
 """
 import os, sys, itertools, sqlite3, warnings, shutil, gc, threading, signal
 from vf import core
@@ -348,11 +352,21 @@ def env():
     return E
 
 class _St(object):
-    def __init__(self): self.trace, self.nextid = [], 1
+    def __init__(self): self.trace, self.nextid, self.write = [], 1, 'entity'
+
+# how a body writes its row: through the entity (the default), through obj.flush() right after creating the object,
+# through Database.insert() and through Database.execute() - every one of them must belong to the session's transaction
+WRITES = ('entity', 'objflush', 'insert', 'execute')
 
 def run_ops(E, ops, st):
     for o in ops:
-        if o == 'W': E.T(id=st.nextid); st.nextid += 1
+        if o == 'W':
+            n = st.nextid; st.nextid += 1
+            if st.write == 'entity': E.T(id=n)
+            elif st.write == 'objflush': E.T(id=n).flush()
+            elif st.write == 'insert': E.db.insert(E.T._table_, id=n)
+            elif st.write == 'execute': E.db.execute('insert into "%s" ("id") values ($n)' % E.T._table_)
+            else: raise core.HarnessError('write %r' % (st.write,))
         elif o == 'F': E.orm.flush()
         elif o == 'C': E.orm.commit()
         elif o == 'B': E.orm.rollback()
@@ -441,6 +455,7 @@ def run_real(case):
     except sqlite3.OperationalError as e:
         raise core.HarnessError('cannot reset scratch table: %s' % e)
     st = _St()
+    st.write = case.get('write', 'entity')
     form = case['form']
     exc = None
     if threading.current_thread() is threading.main_thread():
@@ -621,8 +636,9 @@ def shape(case):
         bits.append('segs=' + ' / '.join(','.join(s) or '-' for s in case['segs']))
         bits.append('drive=' + ','.join(case['drive']))
         return ' '.join(bits)
-    return '%s [%s] body=%s' % (form, ' > '.join(_lvl_text(L) for L in case['levels']),
-                                ' | '.join(','.join(s) or '-' for s in case['scripts']))
+    return '%s [%s] body=%s%s' % (form, ' > '.join(_lvl_text(L) for L in case['levels']),
+                                  ' | '.join(','.join(s) or '-' for s in case['scripts']),
+                                  '' if case.get('write', 'entity') == 'entity' else ' W=' + case['write'])
 
 def signature(case):
     small = shrink(case)
@@ -706,6 +722,8 @@ def cases_of(block):
         for n, tree in enumerate(attempt_trees(retry, r, S0, S1)):
             if n % parts == part:
                 yield dict(form='dec', levels=[L], scripts=list(tree))
+                if any('W' in s_ for s_ in tree) and opt in ('none', 'immediate') and a in ('none', 'list') and r == 'default':
+                    for wk in WRITES[1:]: yield dict(form='dec', levels=[L], scripts=list(tree), write=wk)
     elif fam == 'cm':
         _, retry, a, opt, L0 = block
         L = dict(kind='cm')
@@ -714,6 +732,8 @@ def cases_of(block):
         if opt != 'none': L['opt'] = opt
         for s in scripts(L0):
             yield dict(form='cm', levels=[L], scripts=[s])
+            if 'W' in s and opt in ('none', 'immediate') and a in ('none', 'list'):
+                for wk in WRITES[1:]: yield dict(form='cm', levels=[L], scripts=[s], write=wk)
     elif fam == 'nest':
         _, outer, mids, inners, L0 = block
         for mid in mids:
